@@ -28,9 +28,13 @@ LEVEL_TEXT = ("Coq theorems over the reals about the Gallina model coq/Model/Fit
               "interior control points solve the normal equations, hence are least-squares optimal, given non-zero pivots [G]. Round 2 "
               "(Proofs/FitSurfMore.v): interpolate_surface from the chords with the span hypotheses discharged (only non-zero pivots remain), "
               "approximate_surface keeps the four corner data points as corner control points and interpolates them (composition of the two passes). "
-              "NOT proved (tied by the correspondence and the exact oracle only): existence of the LU factorisation (non-zero pivots) for collocation "
-              "and N^T N matrices (Schoenberg-Whitney / total positivity); least-squares optimality of the composed two-pass surface; sqrt (chord "
-              "lengths are inputs of the model); floating point.")
+              "The LU factorisations EXIST (Proofs/BsplineTP.v, CollocationLU*.v, ApproxLU.v): the averaged knot vector satisfies the "
+              "Schoenberg-Whitney conditions, B-spline collocation minors are totally positive (knot insertion / Boehm), so every Doolittle pivot of "
+              "the interpolation matrix is > 0 for every degree and size, and N^T N is positive definite - hence, WITHOUT any pivot hypothesis: for "
+              "data with positive chords interpolate_curve returns a curve passing through every data point at its parameter, interpolate_surface "
+              "likewise, approximate_curve is least-squares optimal with interpolated ends, approximate_surface interpolates the corners; also on "
+              "the executed Q instance.  NOT proved: least-squares optimality of the composed two-pass surface; sqrt (chord lengths are inputs "
+              "of the model); floating point.")
 LEVEL_NOTE = ("Trusted: Coq 8.16.1 kernel incl. vm_compute; standard-library real-number axioms as printed by Print Assumptions; the hand-written "
               "model's fidelity to geomdl/fitting.py is sampled by the correspondence check (1e-8 tolerance on control points); chord lengths "
               "(sqrt) are inputs of the model")
